@@ -326,7 +326,7 @@ var externalPurePkgs = map[string]bool{
 	"cosmossdk.io/errors": true, "cosmossdk.io/math": true,
 	"github.com/ethereum/go-ethereum/common": true, "github.com/ethereum/go-ethereum/crypto": true,
 	"github.com/cosmos/cosmos-sdk/types/bech32": true,
-	"google.golang.org/grpc/status":            true, "google.golang.org/grpc/codes": true,
+	"google.golang.org/grpc/status":             true, "google.golang.org/grpc/codes": true,
 	"cosmossdk.io/store/prefix":                true, // NewStore: constructor, effects recognised at the primitives
 	"github.com/cosmos/cosmos-sdk/runtime":     true, // KVStoreAdapter
 	"github.com/cosmos/cosmos-sdk/types/query": true, // Paginate: recognised as PAGE effect
@@ -339,17 +339,17 @@ var externalPurePkgs = map[string]bool{
 }
 
 var externalSDKFuncs = map[string]string{
-	"sdk.UnwrapSDKContext":                      "pure",
-	"sdk.AccAddressFromBech32":                  "pure (reads the sealed bech32 config)",
-	"(sdk.Context).EventManager":                "accessor",
-	"(sdk.AccAddress).String":                   "pure (reads the sealed bech32 config; internal LRU cache is value-transparent)",
-	"sdk.GetConfig":                             "process-global read, sealed at start-up, identical on all validators (allow-listed once)",
+	"sdk.UnwrapSDKContext":                     "pure",
+	"sdk.AccAddressFromBech32":                 "pure (reads the sealed bech32 config)",
+	"(sdk.Context).EventManager":               "accessor",
+	"(sdk.AccAddress).String":                  "pure (reads the sealed bech32 config; internal LRU cache is value-transparent)",
+	"sdk.GetConfig":                            "process-global read, sealed at start-up, identical on all validators (allow-listed once)",
 	"(*sdk.Config).GetBech32AccountAddrPrefix": "see sdk.GetConfig",
-	"sdk.ValidateDenom":                         "pure",
-	"sdk.NewCoin":                               "pure (panics on invalid input: C20)",
-	"sdk.NewCoins":                              "pure (panics on invalid input: C20)",
-	"sdk.Bech32ifyAddressBytes":                 "pure",
-	"sdk.MustAccAddressFromBech32":              "pure (panics: C20)",
+	"sdk.ValidateDenom":                        "pure",
+	"sdk.NewCoin":                              "pure (panics on invalid input: C20)",
+	"sdk.NewCoins":                             "pure (panics on invalid input: C20)",
+	"sdk.Bech32ifyAddressBytes":                "pure",
+	"sdk.MustAccAddressFromBech32":             "pure (panics: C20)",
 }
 
 func checkExternalCalls(p *Prog, r *Report, hs, qs []Handler) {
